@@ -210,7 +210,51 @@ impl IoError {
     #[verifier::external_body]
     pub fn kind(&self) -> (r: ErrorKind) ensures r == self.kind_spec() { unimplemented!() }
 }
+// std::fs::Metadata of status.bin: its length is the length of the ghost content.
+#[verifier::external_body] pub struct Metadata { _opaque: () }
+impl Metadata {
+    pub uninterp spec fn len_spec(&self) -> nat;
+    #[verifier::external_body]
+    pub fn len(&self) -> (r: u64) ensures r as nat == self.len_spec() { unimplemented!() }
+    #[verifier::external_body]
+    pub fn is_file(&self) -> (r: bool) { unimplemented!() }
+    #[verifier::external_body]
+    pub fn is_dir(&self) -> (r: bool) { unimplemented!() }
+}
+// fs::metadata / Path::metadata: what is on disk at the path
+#[verifier::external_body]
+pub fn fs_metadata(path: &Path) -> (r: Result<Metadata, IoError>)
+    ensures
+        r matches Ok(m) ==> (disk(*path) matches Some(c) && m.len_spec() == c.len() && status_state(c)),
+        r matches Err(e) ==> (e.kind_spec() == ErrorKind::NotFound ==> disk(*path) is None),
+        r matches Err(e) ==> (e.kind_spec() != ErrorKind::NotFound ==> io_failure()),
+{ unimplemented!() }
+impl Path {
+    #[verifier::external_body]
+    pub fn metadata(&self) -> (r: Result<Metadata, IoError>)
+        ensures
+            r matches Ok(m) ==> (disk(*self) matches Some(c) && m.len_spec() == c.len() && status_state(c)),
+            r matches Err(e) ==> (e.kind_spec() == ErrorKind::NotFound ==> disk(*self) is None),
+            r matches Err(e) ==> (e.kind_spec() != ErrorKind::NotFound ==> io_failure()),
+    { unimplemented!() }
+}
 impl File {
+    // metadata of the open file: an error is a genuine I/O failure
+    #[verifier::external_body]
+    pub fn metadata(&self) -> (r: Result<Metadata, IoError>)
+        ensures
+            r matches Ok(m) ==> m.len_spec() == self.content().len(),
+            r is Err ==> io_failure(),
+    { unimplemented!() }
+    // writes are modelled as appends: repositioning is only admitted on an empty file
+    #[verifier::external_body]
+    pub fn seek(&mut self, to: SeekFrom) -> (r: Result<u64, IoError>)
+        requires old(self).content().len() == 0,
+        ensures
+            final(self).content() == old(self).content(),
+            r is Ok ==> (to matches SeekFrom::Start(n) ==> final(self).pos() == n as int),
+            r is Err ==> final(self).pos() == old(self).pos(),
+    { unimplemented!() }
     // std::fs::File constructors used directly (same steps as the utils::fatal wrappers)
     #[verifier::external_body]
     pub fn create(path: &Path) -> (r: Result<File, IoError>)
@@ -314,3 +358,4 @@ pub assume_specification<T, E, U: core::marker::Destruct, F: FnOnce(T) -> U + co
     ensures match x { Ok(v) => f.ensures((v,), r), Err(_) => r == d };
 pub assume_specification [<std::cmp::Ordering as PartialEq>::eq] (a: &std::cmp::Ordering, b: &std::cmp::Ordering) -> (r: bool)
     ensures r == (*a == *b);
+pub enum SeekFrom { Start(u64), End(i64), Current(i64) }
